@@ -527,6 +527,9 @@ func TestC17(t *testing.T) {
 	defer run.Finish()
 	storage := filepath.Join(t.TempDir(), "rx")
 	if run.Replaying() {
+		if rt := run.ReplayTest(); rt != "" && rt != t.Name() {
+			return
+		}
 		var c Case
 		run.ReplayCase(&c)
 		if v, _ := checkCase(c, storage); v != nil {
